@@ -8,6 +8,7 @@ printed as text when they are valid keys, else as `#<hex>`.
 
   reset                              forget all stores and the sha table
   create <fs|mem|map> <rr>           one whole Create call                 -> ok <key> | err <code> | panic | stuck
+  createw fs limit=<n> <rr>          Create while the staging file cannot grow beyond n bytes -> as create
   hashrd <rr>                        hashutil.HashReader                   -> ok <key> | err <code>
   spawn fs <rr>                      start a Create, run it to its first Read -> id=<i> ret=- objs=[..] tmp=[..]
   step fs <i>                        deliver creator i's next read result, run it to its next Read or return
@@ -125,6 +126,15 @@ def memOf (d : DS) (store : String) : Option Mem :=
 def setMem (d : DS) (store : String) (m : Mem) : DS :=
   if store = "mem" then { d with mem := m } else { d with map := m }
 
+/-- a write fault of the staging file reaches `Create` through the `TeeReader` as a
+    failed read: the read whose bytes would make the file grow beyond `limit` fails
+    (code 950), whatever error the read itself carried -/
+def cutAtLimit (limit : Nat) : List ReadRes → Nat → List ReadRes
+  | [], _ => []
+  | r :: rs, acc =>
+    if acc + r.data.length > limit then [⟨r.data, .other 950⟩]
+    else r :: cutAtLimit limit rs (acc + r.data.length)
+
 def step (d0 : DS) (line : String) : DS × String :=
   let ws := words line
   let d : DS := { d0 with tbl := parseShas ws ++ d0.tbl }
@@ -144,6 +154,14 @@ def step (d0 : DS) (line : String) : DS × String :=
     | some input, some m =>
       let (m', r) := m.create sha input
       (setMem d store m', showCreate r)
+    | _, _ => (d, "bad-op")
+  | ["createw", "fs", lim, rr] =>
+    match parseRR rr, kvNat [lim] "limit" with
+    | some input0, some limit =>
+      let input := cutAtLimit limit input0 0
+      let i := d.fs.crs.length
+      let s := runCreate sha (input.length + 2) (d.fs.spawn input) i
+      ({ d with fs := s }, fsCreateRes s i)
     | _, _ => (d, "bad-op")
   | ["hashrd", rr] =>
     -- hashutil.HashReader: the digest of a complete input, the input's error otherwise
